@@ -38,23 +38,39 @@ def rf_as_f64(text):
     return re.sub(r"\b([a-z_][a-z_0-9]*) as f64\b", r"verif_as_f64(\1)", text), n
 
 
-s4 = _stmt("s4_f64_eq", "value == current_value", "verif_f64_eq(value, current_value)", "S4: float `==` is an opaque relation")
+def s4(text):
+    """S4: `a == b` between two identifiers (float values in SortAndMerge::drain) -> verif_f64_eq(a, b): float equality is an opaque,
+    symmetric relation (this Verus treats the exec comparison as an arbitrary value)"""
+    import re
+    pat = r"\b([a-z_][a-z_0-9]*) == ([a-z_][a-z_0-9]*)\b"
+    n = len(re.findall(pat, text))
+    return re.sub(pat, r"verif_f64_eq(\1, \2)", text), n
+s4.__name__ = "s4_f64_eq"
+
+
+def rc_f64_const(text):
+    """RC: f64::EPSILON / MAX / MIN / INFINITY / NAN / MIN_POSITIVE -> an opaque float (unsupported associated constants)"""
+    import re
+    pat = r"\bf64::(EPSILON|MAX|MIN|INFINITY|NEG_INFINITY|NAN|MIN_POSITIVE)\b"
+    n = len(re.findall(pat, text))
+    return re.sub(pat, r"verif_f64_const()", text), n
 
 
 PRELUDE = r'''
 global size_of usize == 8;
-use vstd::std_specs::ops::{MulSpec, DivSpec};
+use vstd::std_specs::ops::{MulSpec, DivSpec, SubSpec};
 pub mod float_axioms {
     use vstd::prelude::*;
-    use vstd::std_specs::ops::{MulSpec, DivSpec};
+    use vstd::std_specs::ops::{MulSpec, DivSpec, SubSpec};
     // float multiplication / division never panic ...
     pub broadcast axiom fn f64_mul_req(a: f64, b: f64) ensures #[trigger] a.mul_req(b);
     pub broadcast axiom fn f64_div_req(a: f64, b: f64) ensures #[trigger] a.div_req(b);
+    pub broadcast axiom fn f64_sub_req(a: f64, b: f64) ensures #[trigger] a.sub_req(b);
     // ... and are deterministic functions of their operands (results stay opaque)
     pub broadcast axiom fn f64_mul_obeys(a: f64, b: f64) ensures <f64 as MulSpec<f64>>::obeys_mul_spec() || #[trigger] a.mul_spec(b) != a.mul_spec(b);
     pub broadcast axiom fn f64_div_obeys(a: f64, b: f64) ensures <f64 as DivSpec<f64>>::obeys_div_spec() || #[trigger] a.div_spec(b) != a.div_spec(b);
 }
-broadcast use {float_axioms::f64_mul_req, float_axioms::f64_div_req, float_axioms::f64_mul_obeys, float_axioms::f64_div_obeys};
+broadcast use {float_axioms::f64_mul_req, float_axioms::f64_div_req, float_axioms::f64_mul_obeys, float_axioms::f64_div_obeys, float_axioms::f64_sub_req, eq_axioms::f64_eq_symmetric};
 
 // RF: `x as f64` (u64 -> f64) is an opaque function of x (this Verus treats the cast as an arbitrary value)
 pub uninterp spec fn u64_as_f64(x: u64) -> f64;
@@ -116,7 +132,16 @@ impl<T> IntoIterator for Vec<T> {
 }
 
 // ---- SortAndMerge vocabulary ------------------------------------------------------------------------------------
-pub uninterp spec fn f64_eq(a: f64, b: f64) -> bool;
+pub mod eq_axioms {
+    use vstd::prelude::*;
+    pub uninterp spec fn f64_eq(a: f64, b: f64) -> bool;
+    pub broadcast axiom fn f64_eq_symmetric(a: f64, b: f64) ensures #[trigger] f64_eq(a, b) == f64_eq(b, a);
+}
+pub use eq_axioms::f64_eq;
+// other float operations a refactoring may use: they never panic and their results are opaque
+pub assume_specification[ f64::abs ](a: f64) -> (r: f64);
+#[verifier::external_body]
+pub fn verif_f64_const() -> f64 { unimplemented!() }
 #[verifier::external_body]
 pub fn verif_f64_eq(a: f64, b: f64) -> (r: bool) ensures r == f64_eq(a, b) { unimplemented!() }
 // OrderedFloat's total order (opaque)
@@ -262,7 +287,7 @@ ITEMS = [
                     "    // default method of the trait (`self.record_many(value, 1)`), restated\n"
                     "    fn record(&mut self, value: f64) { self.record_many(value, 1); proof { assert(rep(value, 1) =~= seq![value]); } }\n"),
     dict(kind="fn", file=H, impl=r"^impl < const N : usize > AggregationStrategy for SortAndMerge < N >$", name="drain", label="SortAndMerge::drain", ret="r",
-         rules={"s1_sort": 1, "s2_non_nan_iter": 1, "s4_f64_eq": 1, "rf_as_f64": 2}, extra_rewrites=[s1, s2, s4, rf_as_f64], unpinned=["rf_as_f64"], desugar_for=True,
+         rules={"s1_sort": 1, "s2_non_nan_iter": 1, "s4_f64_eq": 1, "rf_as_f64": 2}, extra_rewrites=[s1, s2, s4, rf_as_f64, rc_f64_const], unpinned=["rf_as_f64", "s4_f64_eq", "rc_f64_const"], desugar_for=True,
          attrs=["#[verifier::exec_allows_no_decreases_clause]"],
          ensures="""
             // C11 (sort-and-merge): the reported observations are exactly the run-length encoding of the recorded non-NaN values in
@@ -295,7 +320,7 @@ ITEMS = [
                     assert(runs(verif_consumed).drop_last() =~= Seq::<(f64, nat)>::empty());
                     assert(verif_consumed + iter.rest() =~= verif_nn);
                  }"""),
-             ("before", "if verif_f64_eq ( value , current_value )",
+             ("after", "Some ( value ) => {",
               """let ghost verif_prev = verif_consumed;
                  proof {
                     assert(verif_consumed.push(value).drop_last() =~= verif_consumed);
